@@ -186,9 +186,16 @@ CLAIMED.update({
               'the step in flight). The monitor additionally checks the result of kill(), the kill text, future cancellation, that no '
               'step function starts after the request, that a failed step excepts, and requests issued from listener notifications.'),
     'C05': pm('Theorems C05_nothing_runs_while_paused (no activation in any history starts with paused = true), C05_pause_total, '
-              'C05_play_total, C05_play_unpauses, C05_play_cancels_pending_pause. Transparency (same steps, outputs, result as the '
-              'uninterrupted run) and status restoration are decided by the correspondence and the monitors against the '
-              'uninterrupted run of the same program; they are not yet theorems.'),
+              'C05_play_total, C05_play_unpauses, C05_play_cancels_pending_pause, C05_status_restored (status model). Transparency is '
+              'a theorem for a class of histories: C05_transparent_partial (simulation between the run with pause/play requests and '
+              'the run of its reference history = the same history without pause/play and without the ticks spent suspended on a '
+              'pause future), C05_same_result_partial (when the run with pauses has terminated, the run without any pause/play has '
+              'terminated in the same state object with the same trace of step functions and arguments, context, future, logs), '
+              'C05_same_point_when_quiet_partial, C05_reference_history_is_erasure; for every program and every history of ticks, '
+              'pause and play anywhere, and resume / awaitable completion / awaitable-done / call_soon events while no pause is in effect; '
+              'hypothesis: no tick of the reference run exhausts the fuel of the model loop. Wake-ups arriving while the process is '
+              'held, histories with kill / fail / cancel / failing callbacks (def C05_transparent_full) and outputs are decided by the '
+              'correspondence and the monitor c05-transparent against the uninterrupted run of the same program.'),
     'C06': pm('History level, for every program and every history in which no callback of the stepping task runs out of the model\'s '
               'fuel (H6.histFuelOk: < 1000 synchronous steps in one callback; C06_witness_fuel_exhaustion / C06_first_resume_wins_full_is_false show the '
               'hypothesis is needed in the model): C06_delivery (in every reachable configuration whose WAITING state holds an outcome v - in its '
